@@ -92,6 +92,9 @@ void LoadData(const JSON& data, ccl::semantic::RSModel& model) {
   SetOfEntities calculated{};
   for (auto it = begin(data); it != end(data); ++it) {
     const auto uid = it->at("entityUID").get<EntityUID>();
+    if (!model.Core().Contains(uid)) {
+      continue; // Note: data of a constituent the schema does not have is ignored
+    }
     if (it->at("wasCalculated").get<bool>()) {
       calculated.insert(uid);
     }
@@ -107,7 +110,7 @@ void LoadData(const JSON& data, ccl::semantic::RSModel& model) {
           }
         }
       }
-      if (it->contains("texts")) {
+      if (it->contains("texts") && ccl::semantic::IsBaseSet(type)) {
         model.Values().LoadData(uid, it->at("texts").get<TextInterpretation>());
       }
     } else if (!ccl::semantic::IsCallable(type) && it->contains("value")) {
